@@ -45,7 +45,11 @@ func fetchKeys(iterator func(string) ([]string, string, error), keyBatchChan cha
 		}
 
 		if len(ks) == 0 {
-			break
+			if next == "" {
+				break
+			}
+			// a page may be empty (e.g. once filtered on a basename) although more keys are to come
+			continue
 		}
 
 		select {
